@@ -405,6 +405,10 @@ func (m *Muxer) WriteTables() (int, error) {
 		// Nothing of the tables has reached the writer: they haven't consumed anything
 		if n == 0 {
 			rollback()
+		} else {
+			// Part of the PAT has reached the writer, the PMT won't be written: what the PMT consumed is given back
+			m.pmtVersion, m.pmtCC, m.pmtUpdated = pmtVersion, pmtCC, pmtUpdated
+			m.pmtBytes.Reset()
 		}
 		return bytesWritten, err
 	}
